@@ -543,7 +543,10 @@ func (w *world) oracleC04(v *vlib.Verdict, dev bool) {
 		idRev[*id] = append(idRev[*id], a)
 	}
 	for n, ack := range d.Acks {
-		if ack.AckID != lastAckID+1 {
+		// what the broker received: contiguous from 1 on a link that never failed; an ack that was in flight
+		// when the link was cut is lost with it (the client still numbered it), so after a cut only "strictly
+		// increasing" can be demanded of the received sequence
+		if ack.AckID != lastAckID+1 && (w.cuts == 0 || ack.AckID <= lastAckID) {
 			v.Fail("C04.ackid", fmt.Sprintf("not-increasing-from-1/resumed=%v", len(d.Resumes) > 0), "ack #%d carries ack id %d after %d", n, ack.AckID, lastAckID)
 		}
 		lastAckID = ack.AckID
